@@ -13,6 +13,7 @@ import (
 	"fmt"
 	"net"
 	"os"
+	"runtime"
 	"sync"
 	"time"
 
@@ -54,6 +55,11 @@ func yield(point string) {
 			}
 		}
 	}
+	// Buggify: a garbage collection with finalizers happens at every parking
+	// point, so nothing may depend on an object staying alive by accident
+	// (e.g. the lock's file descriptor being closed by a finalizer).
+	runtime.GC()
+	time.Sleep(time.Millisecond)
 	mu.Lock()
 	defer mu.Unlock()
 	if conn == nil {
